@@ -291,6 +291,13 @@ func execSeg(c *ctx, line string) (obs string) {
 			if n < len(mf.data) {
 				mf.data = mf.data[:n]
 			}
+		case "E":
+			if ops[i+1] == "w" {
+				vfs.failWrite = true
+			} else {
+				vfs.failSync = true
+			}
+			i++
 		case "F":
 			out = append(out, hx(stripZeros(mf.data)))
 		case "D":
@@ -393,7 +400,15 @@ func genFormat(c *ctx, emit func(string)) {
 				ops = append(ops, fmt.Sprintf("G %x", base+uint64(r.Intn(int(next-base)+2))))
 			}
 		}
-		switch r.Intn(4) {
+		switch r.Intn(6) {
+		case 4: // a failed append, then the same indexes again
+			e := []string{"w", "s"}[r.Intn(2)]
+			save := next
+			ops = append(ops, "E "+e, genBatch(r, &next, limit), "L", "Q")
+			next = save
+			ops = append(ops, genBatch(r, &next, limit), "L", "Q")
+		case 5: // a failed force-seal, then the retry
+			ops = append(ops, "E "+[]string{"w", "s"}[r.Intn(2)], "S", "Q", "S", "Q")
 		case 0:
 			ops = append(ops, "S", "Q")
 		case 1: // non-monotonic / empty batch probes
